@@ -136,3 +136,7 @@ pub fn hash_order(_mode: usize) {}
 pub fn debug_str(label: &str, x: &str) {
     eprintln!("DEBUG {}: {}", label, x);
 }
+/// order in which the (sequentialised) worker pool visits the elements of a parallel iterator from here on:
+/// 0 = canonical, 1 = forward and reverse, 2 = all permutations (natively a no-op)
+#[inline(never)]
+pub fn par_order(_mode: usize) {}
